@@ -56,7 +56,7 @@ text = ('Each change compiles, keeps the pinned suite green (33 tests incl. doct
         'are now also checked on frames whose last row was opened but never closed), C17-14 (a character-count length prefix for non-ASCII metadata\n'
         'under C17: C17 now runs the c16 search), C18-13 (end.raw read with a single `read`: the c18 oracle now also reads every archive through\n'
         '1- and 5-byte reads).  Ownership widened although caught natively: End::size (C01, C17), the immutable row view (C03), the version gates\n'
-        '(C04), the writer\'s payload table (C10).\n'
+        '(C04), the writer\'s payload table (C10); the text-field conjuncts of the player contract restated under C19 labels (C19-13).\n'
         'First-pass detection: round 1 26/40, round 2 37/40, round 3 36/40, round 4 35/40, round 5 37/40, round 6 36/40, round 7 35/40; 280 of 280\n'
         'with the final machinery (`seeded/SELFTEST_final.txt`: replay of the first 160 against the quick checks of that time;\n'
         '`seeded/SELFTEST_sample_final.txt`: 60 of those replayed again after round 6, 60 of 60; `seeded/RUN_LOG5.txt`, `RUN_LOG6.txt`, `RUN_LOG7.txt`).\n\n'
